@@ -90,6 +90,7 @@ func (c Context) Update(other Context) Context {
 type ExecutionContext struct {
 	template   *Template
 	macroDepth int
+	depth      int // how many templates are executing this one through include/ssi
 
 	// nodeState keeps the state tags need to remember between their executions within
 	// one rendering (e.g. the position of a cycle), keyed by node. It belongs to the
@@ -128,6 +129,7 @@ func newExecutionContext(tpl *Template, ctx Context) *ExecutionContext {
 func NewChildExecutionContext(parent *ExecutionContext) *ExecutionContext {
 	newctx := &ExecutionContext{
 		template: parent.template,
+		depth:    parent.depth,
 
 		Public:     parent.Public,
 		Private:    make(Context),
